@@ -3,11 +3,14 @@ package c01
 
 import (
 	"fmt"
+	"math/big"
 	"reflect"
 	"testing"
 
+	hio "github.com/hprose/hprose-golang/v3/io"
 	"verif/internal/corpus"
 	"verif/internal/eqv"
+	"verif/internal/gen"
 	"verif/internal/gentypes"
 	"verif/internal/h"
 	"verif/internal/iox"
@@ -45,6 +48,21 @@ func TestCheck(t *testing.T) {
 		k, v := k, v
 		r.Case(fmt.Sprintf("many-containers/%d/%s", k, v.Type()), func(c *h.Case) { manyCase(c, k, v) })
 	}
+	// big floats with five-digit decimal exponents (the largest the decoder accepts), positive
+	// and negative, in the positions a big.Float can take
+	r.Case("big-float-five-digit-exponents", func(c *h.Case) {
+		mk := func(s string) *big.Float { f, _, _ := big.ParseFloat(s, 10, 64, big.ToNearestEven); return f }
+		j := 0
+		for _, s := range []string{"1.5e10000", "-2.25e-10001"} {
+			f := mk(s)
+			for _, v := range []interface{}{f, *f, []*big.Float{f, f}, &gentypes.Libs{BF: f}} {
+				rv := reflect.ValueOf(v)
+				ue := universeEntry{Labeled: gen.Labeled{T: rv.Type(), Label: "bigexp:" + rv.Type().String()}, Block: "leaf"}
+				roundTrips(c, ue, j, rv, iox.ContainsInterface(rv.Type()))
+				j++
+			}
+		}
+	})
 	for _, ue := range corpus.Universe(r.Seed, r.Pick(10, 24), r.Pick(1500, 30000), r.Pick(5, 7)) {
 		ue := ue
 		r.Case(ue.Label, func(c *h.Case) {
@@ -148,7 +166,7 @@ func roundTrips(c *h.Case, ue universeEntry, j int, v reflect.Value, hasIface bo
 		decs := []int{iox.DecUnmarshal, 1 + rng.Intn(iox.NDec-1)}
 		settings := []iox.Setting{{}}
 		if hasIface {
-			settings = append(settings, iox.RandSetting(rng), iox.RandSetting(rng))
+			settings = append(settings, iox.RandSetting(rng), iox.RandSetting(rng), iox.Setting{Struct: hio.StructTypeValue, List: hio.ListTypeSlice})
 		}
 		for ei, enc := range encs {
 			data, ok := encodeOne(c, ue, j, v, simple, enc)
